@@ -79,7 +79,8 @@ def body_topology(ctx, sizes, with_edges):
     nn = max(max(f) for f in faces) + 1
     nodes = [(float(i % 3) + 0.1 * i, float(i // 3) + 0.05 * i * i) for i in range(nn)]
     ctx.note('faces', faces)
-    ds = builders.ugrid((nodes, faces), fill='nan', with_edges=with_edges)
+    # with_edges == 'declared': the mesh names an edge dimension that no variable uses yet (its size is derived)
+    ds = builders.ugrid((nodes, faces), fill='nan', with_edges=bool(with_edges), edge_marker=(with_edges != 'declared'))
     topo = Mesh2DTopology(ds)
 
     fn = rows(topo.face_node_array)
@@ -193,8 +194,8 @@ def cases(tier):
     q = tier == 'quick'
     size_sets = [(3, 3), (3, 4), (4, 3)] if q else [(3, 3), (3, 4), (4, 3), (4, 4), (3, 5), (3, 3, 3), (3, 3, 4)]
     for sizes in size_sets:
-        for with_edges in (False, True):
-            yield Case(f'topology:{"-".join(map(str, sizes))}:edges{int(with_edges)}', body_topology,
+        for with_edges in (False, True, 'declared'):
+            yield Case(f'topology:{"-".join(map(str, sizes))}:edges{with_edges if isinstance(with_edges, str) else int(with_edges)}', body_topology,
                        dict(sizes=sizes, with_edges=with_edges), max_paths=200000, split=32)
     supplies = [(), ('edge_node',), ('edge_node', 'face_edge'), ('edge_node', 'edge_face', 'face_face'),
                 ('edge_node', 'face_edge', 'edge_face', 'face_face')]
